@@ -15,8 +15,9 @@ import sys
 import time
 
 ROOT = os.path.dirname(os.path.dirname(os.path.abspath(__file__)))
-HARNESS = os.path.join(ROOT, "harness")
-BUILD = os.path.join(ROOT, ".build")
+# (VERIF_HARNESS / VERIF_BUILD: only for experiments against a scratch copy of the repository, see seeded/README)
+HARNESS = os.environ.get("VERIF_HARNESS", os.path.join(ROOT, "harness"))
+BUILD = os.environ.get("VERIF_BUILD", os.path.join(ROOT, ".build"))
 EVID = os.path.join(ROOT, "evidence")
 REPLAYS = os.path.join(ROOT, "replays")
 KNOWN = os.path.join(ROOT, "known_findings.json")
